@@ -1,0 +1,112 @@
+//go:build verif
+// +build verif
+
+package rpc
+
+// Exported wrappers around the unexported wire codecs of this package, for the verification harness of
+// property C01 (/verif). Compiled only under the build tag `verif`.
+
+import (
+	"bytes"
+	"context"
+
+	"github.com/logrange/logrange/api"
+	"github.com/logrange/logrange/pkg/model"
+	"github.com/logrange/logrange/pkg/partition"
+	"github.com/logrange/range/pkg/utils/encoding/xbinary"
+)
+
+// VC01WriteLogEvent runs writeLogEvent and returns the bytes written
+func VC01WriteLogEvent(ev *api.LogEvent) ([]byte, int, error) {
+	var bb bytes.Buffer
+	ow := &xbinary.ObjectsWriter{Writer: &bb}
+	n, err := writeLogEvent(ev, ow)
+	return bb.Bytes(), n, err
+}
+
+// VC01LogEventSize runs getLogEventSize
+func VC01LogEventSize(ev *api.LogEvent) int { return getLogEventSize(ev) }
+
+// VC01UnmarshalLogEvent runs unmarshalLogEvent (newBuf=true so that the result does not alias buf)
+func VC01UnmarshalLogEvent(buf []byte, newBuf bool) (api.LogEvent, int, error) {
+	var le api.LogEvent
+	n, err := unmarshalLogEvent(buf, &le, newBuf)
+	return le, n, err
+}
+
+// VC01EncodeWritePacket runs writePacket.WriteTo; it also returns WritableSize()
+func VC01EncodeWritePacket(tags, fields string, evs []*api.LogEvent) ([]byte, int, error) {
+	wp := &writePacket{tags: tags, fields: fields, events: evs}
+	var bb bytes.Buffer
+	ow := &xbinary.ObjectsWriter{Writer: &bb}
+	_, err := wp.WriteTo(ow)
+	return bb.Bytes(), wp.WritableSize(), err
+}
+
+// VC01WriteQueryResult runs writeQueryResult
+func VC01WriteQueryResult(qr *api.QueryResult) ([]byte, int, error) {
+	var bb bytes.Buffer
+	ow := &xbinary.ObjectsWriter{Writer: &bb}
+	_, err := writeQueryResult(qr, ow)
+	return bb.Bytes(), getQueryResultSize(qr), err
+}
+
+// VC01BuildQueryResult runs the server-side queryResultBuilder over the events and the next request
+func VC01BuildQueryResult(evs []*api.LogEvent, next *api.QueryRequest) ([]byte, error) {
+	var qr queryResultBuilder
+	qr.init(nil)
+	defer qr.Close()
+	for _, e := range evs {
+		if err := qr.writeLogEvent(e); err != nil {
+			return nil, err
+		}
+	}
+	if err := qr.writeQueryRequest(next); err != nil {
+		return nil, err
+	}
+	return append([]byte{}, qr.buf()...), nil
+}
+
+// VC01UnmarshalQueryResult runs unmarshalQueryResult
+func VC01UnmarshalQueryResult(buf []byte) (*api.QueryResult, int, error) {
+	res := new(api.QueryResult)
+	n, err := unmarshalQueryResult(buf, res, true)
+	return res, n, err
+}
+
+// VC01WpIter wraps the server-side write packet iterator
+type VC01WpIter struct {
+	wpi wpIterator
+}
+
+// Init runs wpIterator.init
+func (w *VC01WpIter) Init(buf []byte) error { return w.wpi.init(buf) }
+
+// Tags returns the tags decoded by Init
+func (w *VC01WpIter) Tags() string { return w.wpi.tags }
+
+// Recs returns the record count decoded by Init
+func (w *VC01WpIter) Recs() int { return w.wpi.recs }
+
+// Get runs wpIterator.Get
+func (w *VC01WpIter) Get() (model.LogEvent, error) {
+	le, _, err := w.wpi.Get(context.Background())
+	return le, err
+}
+
+// Next runs wpIterator.Next
+func (w *VC01WpIter) Next() { w.wpi.Next(context.Background()) }
+
+// Iterator exposes the wrapped iterator as a model.Iterator (to hand it to partition.Service.Write)
+func (w *VC01WpIter) Iterator() model.Iterator { return &w.wpi }
+
+// VC01Ingest does what ServerIngestor.write does with a request body, minus sending the response:
+// the packet iterator is initialised over the body and handed to the partition service.
+func VC01Ingest(ctx context.Context, svc *partition.Service, body []byte) error {
+	var wpi wpIterator
+	err := wpi.init(body)
+	if err == nil {
+		err = svc.Write(ctx, wpi.tags, &wpi, false)
+	}
+	return err
+}
